@@ -211,6 +211,14 @@ Definition check (c : sexp) : sexp :=
                 as_bytes ra, as_bytes rs, as_nat lk, as_bool hg with
           | Some items, Some tr, Some dl, Some respa, Some resps, Some leak, Some hang =>
               let p := mk_prog items in
+              (* a field with two failing getters, the first through a promise, the second
+                 synchronously: either admissible error, identical data (the harness offers the second
+                 reference only there and only when its data equals the reference's; C02's known
+                 finding admissible-error-differs) *)
+              let alt_ok := match field1 "respalt" l with
+                            | Some a => match as_bytes a with Some ab => bytes_eqb respa ab | None => false end
+                            | None => false
+                            end in
               (* the request context was cancelled: the response legitimately differs from the
                  all-synchronous one (fields not invoked / functions returning the context's error);
                  every other clause is judged as usual *)
@@ -231,7 +239,7 @@ Definition check (c : sexp) : sexp :=
                                             | None => false end) dl with
                   | Some d => v_oracle_fail "promise-holds-wrong-result" [of_nat (fst d)]
                   | None =>
-                      if negb cancelled && negb (bytes_eqb respa resps) then v_oracle_fail "response-differs-from-synchronous" []
+                      if negb cancelled && negb (bytes_eqb respa resps) && negb alt_ok then v_oracle_fail "response-differs-from-synchronous" []
                       else if negb (Nat.eqb leak 0) then v_oracle_fail "goroutine-blocked-after-request" [of_nat leak]
                       else if empty_round tr false false then v_oracle_fail "idle-round-filled-no-promise-of-this-execution" []
                       else
@@ -252,6 +260,7 @@ Definition check (c : sexp) : sexp :=
                         | inl s =>
                             match st_phase s with
                             | PEnded => v_ok (classes items tr m ++ sym_class l "gmp" ++ sym_class l "ws" ++
+                                              (if alt_ok && negb (bytes_eqb respa resps) then ["admissible-error-differs"] else []) ++
                                               (if cancelled then sym_class l "cancelkind" else []) ++
                                               (if cancelled && existsb (fun it => match it_res it with RErr (-3) => true | _ => false end) items
                                                then ["function-returned-ctx-error"] else []) ++
